@@ -1175,3 +1175,31 @@ def protocol_census(run, model):
     for ex in r['examples']:
         run.note('handler-protocol census example: ' + ex)
     return r
+
+
+
+# ---------------------------------------------------------------------------------------------- an initial transition that targets the state itself (C24)
+
+def selfinit_rule(run, model, rule='HSM-PROGRESS.selfinit'):
+    """malformed-chart run of the content analysis: every initial transition is assumed to name the very state that takes it.  Whatever the shape of the walk, the
+    processor must then raise before it asks any state for another initial transition and before it returns - otherwise it asks the same state again for ever
+    (or silently rests in a state it never entered)."""
+    from .hsmcontent import ContentAnalysis
+    hep = processor(model)
+    n = 0
+    for nm, at_entry, track in (('dispatch', False, True), ('init', True, False)):
+        ba, res, callees = buffer_analysis(model, nm)
+        ca = ContentAnalysis(ba.entry, callees, cursor_is_target_at_entry=at_entry, track_source=track, assume_self_init=True)
+        for o in ca.run():
+            if o['kind'] != 'O10-selfinit':
+                continue
+            n += 1
+            ok = o['verdict'] == 'OK'
+            f = o['func']
+            what = occurrence_key(o['node'], f) if not isinstance(o['node'], ast.FunctionDef) else 'end of %s' % f.name
+            run.inst(rule, f, 'after an initial transition to the state itself: ' + what, ok,
+                     '' if ok else ('%s: when a state\'s initial transition targets that same state, %s %s instead of raising HsmTopologyException - the step never ends (the '
+                                    'state is asked for its initial transition again and again), or the chart rests in a state whose entry never ran'
+                                    % (o['verdict'], f.qualname, 'asks for an initial transition again' if 'asks' in o['verdict'] else 'finishes normally')),
+                     node=o['node'] if not isinstance(o['node'], ast.FunctionDef) else None, obligation=True)
+    return n
